@@ -83,7 +83,7 @@ def get_required(xml_elem, attribute):
 
 def make_constant(xml_elem):
     return model.Constant(
-        xml_elem.get("name"),
+        get_required(xml_elem, "name"),
         expand_operators(get_required(xml_elem, "value")),
         docstring=get_docstr(xml_elem)
     )
@@ -124,19 +124,19 @@ def make_enum(xml_elem):
             except ValueError:
                 pass
             members.append(model.EnumMember(
-                member.get("name"),
+                get_required(member, "name"),
                 expand_operators(value),
                 docstring=get_docstr(member))
             )
 
-        enum = model.Enum(xml_elem.get("name"), members, docstring=get_docstr(xml_elem))
+        enum = model.Enum(get_required(xml_elem, "name"), members, docstring=get_docstr(xml_elem))
         check_for_duplicates(enum)
         return enum
 
 
 def make_struct_members(xml_elem, dynamic_array=False):
-    xml_elem_name = xml_elem.get("name")
-    xml_elem_type = xml_elem.get("type")
+    xml_elem_name = get_required(xml_elem, "name")
+    xml_elem_type = get_required(xml_elem, "type")
     optional = xml_elem.get("optional")
     optional = bool(optional) and optional.lower() == "true"
     dimension = xml_elem.find("dimension")
@@ -180,7 +180,7 @@ def make_struct(xml_elem, last_member_array_is_dynamic=False):
         for member in xml_elem:
             for sub_ in make_struct_members(member, last_member_array_is_dynamic):
                 members.append(sub_)
-        return model.Struct(xml_elem.get("name"), members, docstring=get_docstr(xml_elem))
+        return model.Struct(get_required(xml_elem, "name"), members, docstring=get_docstr(xml_elem))
 
 
 def make_union(xml_elem):
@@ -188,12 +188,12 @@ def make_union(xml_elem):
         members = []
         for member in xml_elem:
             members.append(model.UnionMember(
-                member.get("name"),
-                member.get("type"),
-                member.get("discriminatorValue"),
+                get_required(member, "name"),
+                get_required(member, "type"),
+                get_required(member, "discriminatorValue"),
                 docstring=get_docstr(member),
             ))
-        return model.Union(xml_elem.get('name'), members, docstring=get_docstr(xml_elem))
+        return model.Union(get_required(xml_elem, 'name'), members, docstring=get_docstr(xml_elem))
 
 
 class IsarParser(object):
